@@ -29,6 +29,7 @@ def rules(ctx):
     C06.c063(ctx)
     from . import C11
     C11.c111(ctx)
+    C11.c112(ctx)   # the memtable cursor and the pinned cursor hand every entry on, one step per step
     C11.c115(ctx)   # bounded scans: the bounds cursor honours both bounds in both directions
     C11.c116(ctx)   # per-level concatenation: seek/next/prev move on from an exhausted file
     C11.c117(ctx)   # per-level concatenation: an entered file is positioned by a seek of its own
